@@ -178,6 +178,13 @@ def main(argv=None):
     for s, why in failures.items():
         inconclusive.append(why)
 
+    # a handful of cases the harness itself could not set up are tolerated (and reported); more is inconclusive
+    he = counters.pop("first_harness_error", None)
+    _ = he
+    n_he = counters.get("harness_errors", 0)
+    if n_he > max(3, 0.005 * max(evaluations, 1)):
+        first = next((n for n in notes if n.startswith("first harness error")), "")
+        inconclusive.append(f"{n_he} cases hit a harness error ({first[:200]})")
     required = getattr(mod, "REQUIRED_COUNTERS", [])
     if not a.replay:
         for c in required:
